@@ -186,7 +186,9 @@ def _validate_chunk(module, cfg, part, env, timeout, extra_files):
         for m in re.finditer(r'<<"REJECT", (\d+), (\d+)>>', r.out):
             rej[int(m.group(1)) - 1] = int(m.group(2))
         if r.violated:
-            raise MachineryError("trace validation hit an invariant/property instead of finishing\n" + r.out[-2000:])
+            m = re.search(r"Error:.*?(?=<<\"REJECT|\Z)", r.out, flags=re.S)
+            raise MachineryError("trace validation hit an invariant/property/evaluation error instead of finishing\n"
+                                 + (m.group(0)[:3000] if m else r.out[-2000:]))
         if "Model checking completed" not in r.out:
             raise MachineryError("trace validation did not complete\n" + r.out[-2000:])
         return rej, r
